@@ -1634,6 +1634,57 @@ func (e *Engine) fieldsComparedObligations(p string) []*Obligation {
 	return out
 }
 
+// freshInLoopObligations: "freshinloop" - a decode target (or any buffer whose
+// old content must not leak into the next round) is a new variable in every
+// iteration of the loop.
+func (e *Engine) freshInLoopObligations(p string) []*Obligation {
+	var out []*Obligation
+	for _, r := range e.cs.FreshInLoops {
+		if !hasProp(r.Props, p) {
+			continue
+		}
+		detail := ""
+		f, ok := e.funcByKey[r.Func]
+		if !ok {
+			detail = "unknown function " + r.Func
+		} else {
+			li := findLoops(f)
+			var lp *loop
+			for _, l := range li.loops {
+				if l.ordinal == r.Loop {
+					lp = l
+				}
+			}
+			found := false
+			if lp == nil {
+				detail = fmt.Sprintf("%s has no loop %d", shortKey(r.Func), r.Loop)
+			} else {
+				for _, b := range f.Blocks {
+					for _, ins := range b.Instrs {
+						if a, ok := ins.(*ssa.Alloc); ok && a.Comment == r.Var {
+							found = true
+							if !lp.body[b] {
+								detail = fmt.Sprintf("%s: variable %s is declared outside loop %d: its content survives from one iteration to the next", e.fset.Position(a.Pos()), r.Var, r.Loop)
+							}
+						}
+					}
+				}
+				if !found && detail == "" {
+					detail = "no addressable local variable " + r.Var + " in " + shortKey(r.Func)
+				}
+			}
+		}
+		ft := e.newFT(nil)
+		goal := "true"
+		if detail != "" {
+			goal = "false"
+		}
+		out = append(out, &Obligation{Name: "scan/freshinloop " + shortKey(r.Func) + ":" + r.Var, Kind: "scan", Props: r.Props, Func: "scan", Pos: fmt.Sprintf("%s:%d", filepath.Base(r.File), r.Line),
+			Text: r.Var + " is a new variable in every iteration of loop " + strconv.Itoa(r.Loop) + " of " + shortKey(r.Func), Goal: goal, Reach: "true", ft: ft, SrcLine: detail})
+	}
+	return out
+}
+
 func shortKey(k string) string {
 	if i := strings.LastIndex(k, "/"); i >= 0 {
 		return k[i+1:]
